@@ -47,7 +47,7 @@ type Msg struct {
 // NetStats counts what the network actually did.
 type NetStats struct {
 	Sent, Delivered, DroppedReq, DroppedReply, Duplicated, Redelivered int64
-	BlockedReq, BlockedReply, PeerDown, HeavyTail, Errors, LossyDropped int64
+	BlockedReq, BlockedReply, PeerDown, HeavyTail, Errors, LossyDropped, SlowLink int64
 	ByKind                                                             [3]int64
 }
 
@@ -61,6 +61,8 @@ type Net struct {
 	blocked map[string]map[string]bool
 	// lossy[from][to]: per-link loss probability (permille) of flaky links.
 	lossy map[string]map[string]int
+	// slow[from][to]: extra one-way delay (ns) of a slow link (a congested or rerouted path).
+	slow map[string]map[string]int64
 
 	// Mutable fault parameters (plan steps may change them).
 	DropPm, DupPm, ReplyLossPm, HeavyTailPm, RedeliverPm int
@@ -109,6 +111,17 @@ func (n *Net) isBlocked(from, to string) bool { return n.blocked[from][to] }
 func (n *Net) healAll() {
 	n.blocked = map[string]map[string]bool{}
 	n.lossy = nil
+	n.slow = nil
+}
+
+func (n *Net) setSlow(from, to string, extraNs int64) {
+	if n.slow == nil {
+		n.slow = map[string]map[string]int64{}
+	}
+	if n.slow[from] == nil {
+		n.slow[from] = map[string]int64{}
+	}
+	n.slow[from][to] = extraNs
 }
 
 func (n *Net) setLossy(a, b string, pm int) {
@@ -153,6 +166,10 @@ func (n *Net) delay(a, b string) int64 {
 		return d
 	}
 	d := n.rng.Range(n.MinDelayNs, n.MaxDelayNs)
+	if extra := n.slow[a][b]; extra > 0 {
+		n.Stats.SlowLink++
+		d += n.rng.Range(extra/2, extra)
+	}
 	if b := int64(n.c.Cfg.DelayBoundMs) * 1_000_000; b > 0 && d > b {
 		d = b
 	}
